@@ -184,6 +184,11 @@ def Result.isContr : Result → Bool
   | .contr _ => true
   | _ => false
 
+/-- the answer is a satisfying assignment -/
+def Result.isSat : Result → Bool
+  | .sat _ => true
+  | _ => false
+
 inductive Mode where
   | real | dark | exact | edark
   deriving Repr, BEq, DecidableEq, Inhabited
